@@ -1630,3 +1630,145 @@ func ruleR4_6(w *World, r *Report) {
 		r.OK("R4.6", key, w.InstrPos(call), "both lists are filled together and reach the call unchanged")
 	}
 }
+
+// ---------- R9.9: entries added to a table of lists do not share storage ----------
+
+func ruleR9_9(w *World, r *Report) {
+	r.Rule("R9.9", "wherever a Solver table whose elements are lists is grown, the lists appended are nil or separately allocated: the same non-nil slice is never appended at two positions, nor allocated once outside the growth loop", 4)
+	n := 0
+	for _, fn := range w.LibFns() {
+		if w.PkgName(fn) != "solver" {
+			continue
+		}
+		k := 0
+		for _, ci := range callsIn(fn) {
+			c, ok := ci.(*ssa.Call)
+			if !ok {
+				continue
+			}
+			b, isB := c.Call.Value.(*ssa.Builtin)
+			if !isB || b.Name() != "append" || len(c.Call.Args) != 2 {
+				continue
+			}
+			st, isSl := c.Type().Underlying().(*types.Slice)
+			if !isSl {
+				continue
+			}
+			if _, elemIsSlice := st.Elem().Underlying().(*types.Slice); !elemIsSlice {
+				continue
+			}
+			o, f, _, okF := loadedFieldOf(c.Call.Args[0])
+			if !okF || !strings.HasPrefix(o, "solver.") {
+				continue
+			}
+			// the variadic elements
+			sl, isS := c.Call.Args[1].(*ssa.Slice)
+			if !isS {
+				continue
+			}
+			al, isAl := sl.X.(*ssa.Alloc)
+			if !isAl {
+				continue
+			}
+			var vals []ssa.Value
+			for _, ref := range *al.Referrers() {
+				if ia, isIA := ref.(*ssa.IndexAddr); isIA {
+					for _, r2 := range *ia.Referrers() {
+						if s2, isSt := r2.(*ssa.Store); isSt && s2.Addr == ssa.Value(ia) {
+							vals = append(vals, s2.Val)
+						}
+					}
+				}
+			}
+			if len(vals) == 0 {
+				continue
+			}
+			k++
+			n++
+			key := fmt.Sprintf("%s grows %s.%s #%d with lists of their own", w.FuncName(fn), o, f, k)
+			why := ""
+			for i, v := range vals {
+				if kc, isK := v.(*ssa.Const); isK && kc.IsNil() {
+					continue
+				}
+				for j := i + 1; j < len(vals); j++ {
+					if vals[j] == v {
+						why = "the same slice is appended at two positions: the two lists share one backing array, and entries added to one overwrite the other's"
+					}
+				}
+				if vi, isI := v.(ssa.Instruction); isI && inLoop(fn, c.Block()) {
+					same := false
+					for _, h := range loopHeaders(fn) {
+						lb := loopBlocks(fn, h)
+						if lb[c.Block()] && lb[vi.Block()] {
+							same = true
+						}
+					}
+					if !same {
+						why = "a slice allocated once outside the growth loop is appended in every iteration: all these lists share one backing array"
+					}
+				}
+			}
+			r.Check(why == "", "R9.9", key, w.InstrPos(c), fmt.Sprintf("%d element(s), nil or separately allocated", len(vals)), why)
+		}
+	}
+	if n == 0 {
+		r.Unk("R9.9", "tables of lists", "-", "no growth of a Solver table whose elements are lists")
+	}
+}
+
+// ---------- R9.10: Solve skips the search only when the problem is already known unsatisfiable ----------
+
+func ruleR9_10(w *World, r *Report) {
+	r.Rule("R9.10", "every return of Solver.Solve that is not preceded by the reset of the status to Indet (after which the search runs) lies under a test that the status is Unsat: constraints added since the last answer are never answered from the old status", 1)
+	fn := w.Func("solver", "Solver.Solve")
+	if fn == nil {
+		r.Unk("R9.10", "solver.(*Solver).Solve", "-", "method not found")
+		return
+	}
+	indet, _ := w.statusConst("Indet")
+	unsat, _ := w.statusConst("Unsat")
+	var reset *ssa.Store
+	for _, st := range storesToField(fn, "solver.Solver", "status") {
+		if k, ok := constInt(st.Val); ok && k == indet {
+			if reset == nil || instrDominates(st, reset) {
+				reset = st
+			}
+		}
+	}
+	key := "(*solver.Solver).Solve answers from the old status only when it is Unsat"
+	if reset == nil {
+		r.Unk("R9.10", key, w.Pos(fn.Pos()), "Solve never resets the status to Indet")
+		return
+	}
+	var bad []string
+	nEarly := 0
+	allInstrs(fn, func(ins ssa.Instruction) {
+		ret, ok := ins.(*ssa.Return)
+		if !ok || instrDominates(reset, ret) || ret.Block() == fn.Recover {
+			return
+		}
+		nEarly++
+		okc := false
+		for _, ec := range dominatingConds(ret.Block()) {
+			bo, isB := ec.Cond.(*ssa.BinOp)
+			if !isB || (bo.Op != token.EQL && bo.Op != token.NEQ) || (bo.Op == token.EQL) != ec.True {
+				continue
+			}
+			if _, isF := isFieldLoad(bo.X, "solver.Solver", "status"); !isF {
+				continue
+			}
+			if k, isK := constInt(bo.Y); isK && k == unsat {
+				okc = true
+			}
+		}
+		if !okc {
+			bad = append(bad, w.InstrPos(ret))
+		}
+	})
+	if len(bad) > 0 {
+		r.Bad("R9.10", key, bad[0], "Solve can return at "+strings.Join(bad, ", ")+" without searching although the status is not Unsat: after constraints were added (AppendClause binds forced literals at the top level and leaves the old status) the previous answer and the previous model are returned")
+	} else {
+		r.OK("R9.10", key, w.InstrPos(reset), fmt.Sprintf("%d early return(s), each under status == Unsat", nEarly))
+	}
+}
